@@ -99,24 +99,31 @@ const (
 )
 
 var clock = struct {
-	mu      sync.Mutex
-	mode    int
-	gen     int
-	gens    map[int64]int // goroutine id -> generation
-	live    int           // package goroutines of the current generation that sleep (flushers)
-	parked  []chan struct{}
-	ticks   int
-	vtime   time.Duration
-	lastD   time.Duration
-	sleeps  int64
-	stuck   bool
-	scale   int
-	flushGo int64
+	mu        sync.Mutex
+	mode      int
+	gen       int
+	gens      map[int64]int // goroutine id -> generation
+	live      int           // package goroutines of the current generation that sleep (flushers)
+	parked    []chan struct{}
+	ticks     int
+	vtime     time.Duration
+	lastD     time.Duration
+	sleeps    int64
+	stuck     bool
+	scale     int
+	flushGo   int64
+	spawnsAny int64
+	spawnGens []int
 }{gens: map[int64]int{}, scale: 50}
 
 const flusherFunc = "startAsyncWritesRoutine"
 
 func clockGo(name, ev string) {
+	if ev == "spawn" {
+		clock.mu.Lock()
+		clock.spawnsAny++
+		clock.mu.Unlock()
+	}
 	if name != flusherFunc {
 		return
 	}
@@ -126,8 +133,16 @@ func clockGo(name, ev string) {
 	case "spawn":
 		clock.live++
 		clock.flushGo++
+		clock.spawnGens = append(clock.spawnGens, clock.gen)
 	case "enter":
-		clock.gens[gid()] = clock.gen
+		// the goroutine belongs to the generation in which it was spawned,
+		// even when it only starts running after the case has ended
+		g := clock.gen
+		if len(clock.spawnGens) > 0 {
+			g = clock.spawnGens[0]
+			clock.spawnGens = clock.spawnGens[1:]
+		}
+		clock.gens[gid()] = g
 	case "exit":
 		g := gid()
 		if clock.gens[g] == clock.gen {
@@ -188,6 +203,7 @@ func clockNewCase(mode int) {
 	clock.ticks = 0
 	clock.vtime = 0
 	clock.stuck = false
+	clock.spawnsAny = 0
 	clock.mu.Unlock()
 }
 
@@ -258,6 +274,20 @@ func clockStuck() bool {
 
 // clockReleaseAll ends the generation (called after the handles were closed).
 func clockReleaseAll() {
+	// let goroutines that were spawned but have not started yet start
+	for i := 0; i < 20000; i++ {
+		clock.mu.Lock()
+		n := len(clock.spawnGens)
+		clock.mu.Unlock()
+		if n == 0 {
+			break
+		}
+		if i < 100 {
+			runtime.Gosched()
+		} else {
+			time.Sleep(50 * time.Microsecond)
+		}
+	}
 	clock.mu.Lock()
 	clock.gen++
 	ps := clock.parked
@@ -267,4 +297,10 @@ func clockReleaseAll() {
 	for _, ch := range ps {
 		close(ch) // they notice the stale generation and block forever
 	}
+}
+
+func clockSpawnsAny() int64 {
+	clock.mu.Lock()
+	defer clock.mu.Unlock()
+	return clock.spawnsAny
 }
